@@ -382,3 +382,24 @@ UNWRITTEN_BLOCK_ABORTS = _c1(_p([_s("s0", [_t("t0", script=[_blk_late({"a": "rai
                                             _t("t2", script=[_LOG], rank=3)])]))
 UNWRITTEN_ATTACHMENTS = [UNWRITTEN_BLOCK_RAISES_IN_BODY, SAVE_MISSING_IN_BODY, SAVE_MISSING_IN_SETUP_SUITE, SAVE_MISSING_IN_TEST_HOOKS_AND_FIXTURE,
                          UNWRITTEN_BLOCK_RAISES_IN_THREAD, UNWRITTEN_BLOCK_ABORTS]
+
+
+# ---- suites with a setup phase whose OWN tests are all disabled, under --force-disabled (they do run, and need that setup) ------
+_SETUP = {"params": [], "script": [_LOG]}
+# a NESTED suite with setup_suite / teardown_suite hooks, each of its tests disabled; a test of another suite depends on one of them
+FORCED_NESTED_ALL_DISABLED = _c1(_p([
+    _s("s0", [_t("t0", script=[_LOG])],
+       suites=[_s("sub", [_t("u0", script=[_LOG], disabled=True), _t("u1", script=[_LOG], rank=2, disabled="not ready")],
+                  setup_suite=dict(_SETUP), teardown_suite=[_LOG])]),
+    _s("s1", [_t("t1", script=[_LOG], deps=[["s0", "sub", "u0"]])], rank=2)], force=True), n=2)
+# the nested suite itself is disabled (two levels down), its setup comes from a suite-scoped fixture
+FORCED_NESTED_DISABLED_SUITE = _c1(_p([
+    _s("s0", [_t("t0", script=[_LOG])],
+       suites=[_s("mid", [], suites=[dict(_s("deep", [_t("v0", ["f0"], [_LOG]), _t("v1", script=[_LOG], rank=2)], setup_suite=dict(_SETUP)),
+                                          disabled=True)])])],
+    [_f("f0", "suite", [_LOG], teardown=[_LOG])], force=True))
+# the same without the option: nothing of the suite runs, no setup either
+NESTED_ALL_DISABLED_NOT_FORCED = _c1(_p([
+    _s("s0", [_t("t0", script=[_LOG])],
+       suites=[_s("sub", [_t("u0", script=[_LOG], disabled=True)], setup_suite=dict(_SETUP), teardown_suite=[_LOG])])]))
+ALL_DISABLED_SUITES = [FORCED_NESTED_ALL_DISABLED, FORCED_NESTED_DISABLED_SUITE, NESTED_ALL_DISABLED_NOT_FORCED]
